@@ -42,6 +42,10 @@ CHECKS = {
    text="File-level form of exactly-once accounting: at every quiescent point the freelist and .gc entries whose record is still unmarked must be, as a multiset, exactly the primary records that are neither marked deleted nor named by a live index entry - a lost entry shows as an unreferenced live-looking record, a duplicate as multiplicity 2, a premature or spurious one as a referenced location (F4/F7-current-location-freed). Evaluated by TLC on projections after every Flush, GC cycle (incl. cycles stopped by their time limit, relocation) and reopen of all short histories and simulated long ones.",
    note="sequential histories; interleavings of freelist Put/Flush/ToGC are explored by the concurrency engine; after a crash only the safety half is demanded (DESIGN.md §6 C13).",
    ref="DESIGN.md §6 C13"),
+ "C12": dict(engine="flushrate", technique="TLC liveness checking of FlushRate.tla (NoLostWakeup under fairness) + replay of every model transition as a schedule on the real store by a cooperative scheduler at verif yield points + TLC trace validation (FlushRateTrace.tla)",
+   text="FlushRate.tla models the back-pressure protocol one action per critical section (writer: put, measure, register, signal, wait; flusher: tick, take, check, commit, notify; explicit Flush caller). TLC checks NoLostWakeup (waiting ~> released) under weak fairness of the flusher and a recurring ticker, and exports one schedule per transition of the state graph. A cooperative scheduler keyed by goroutine id replays each schedule on a real store (the harness plays Store.run's ticker and receive through verif accessors), probes after every flusher step whether a waiting writer can proceed, then lets all threads run free with a 1 ms ticker for 2 s. TLC judges the recorded events: R1 every writer returned; R2 a writer is released only after a flusher step in which Flush returned began after its registration.",
+   note="1-writer programs (with and without an explicit Flush caller) exhaustively; 2-writer programs exhaustively in the thorough tier, sampled in the quick tier; atomicity violations strictly inside a critical section are only reachable in the free-running phase; 'waits for ever' is observed as 'has not returned after 2 s with a 1 ms ticker'.",
+   ref="DESIGN.md §3.7, §6 C12"),
 }
 
 NOT_APPLICABLE = [
@@ -82,6 +86,7 @@ def main():
         "engines": [
             {"name": "seq", "path": "harness/cmd/vrun/seq.go + harness/internal/fsckread + spec/KV.tla + spec/StoreTrace.tla + tools/seqeng.py", "serves_properties": ["C01", "C02", "C04", "C07", "C09", "C13"], "kind_free_text": "TLC-generated call histories executed on a real store.Store; TLC total monitor over the recorded trace"},
             {"name": "bstore", "path": "harness/cmd/vrun/bstore.go + spec/Blockstore.tla + spec/BlockstoreTrace.tla", "serves_properties": ["C15"], "kind_free_text": "TLC state-graph replay on real HashedBlockstore + TLC trace monitor"},
+            {"name": "flushrate", "path": "harness/cmd/vrun/flushrate.go + harness/internal/sched + spec/FlushRate.tla + spec/FlushRateTrace.tla", "serves_properties": ["C12"], "kind_free_text": "TLC schedules replayed by a cooperative scheduler at yield points (build tag verif); TLC trace monitor"},
             {"name": "fcache", "path": "harness/cmd/vrun/fcache.go + spec/FileCache.tla + spec/FileCacheTrace.tla", "serves_properties": ["C14"], "kind_free_text": "TLC state-graph replay on real FileCache + TLC trace monitor"},
             {"name": "reclist", "path": "harness/cmd/vrun/reclist.go + spec/RecordList.tla + spec/RecordListTrace.tla", "serves_properties": ["C08"], "kind_free_text": "TLC state-graph replay on real index.Index + TLC trace monitor"},
         ],
